@@ -13,6 +13,24 @@ def pairsTok (ps : List (Bytes × Bytes)) : String :=
 def expectedPairs (announce hash : Bytes) (extra : List (Bytes × Bytes)) : List (Bytes × Bytes) :=
   (match (splitUrl announce).2 with | some q => parsePairs q | none => []) ++ (sInfoHash, hash) :: extra
 
+/-- Percent-decoding of a request path (the `url` crate writes a raw space of the announce URL as `%20`). -/
+def pctDecodeF : Nat → Bytes → Bytes
+  | 0, b => b
+  | _, [] => []
+  | fuel + 1, c :: rest =>
+    if c = 37 then
+      match rest with
+      | a :: b :: rest' =>
+        match hexVal? a, hexVal? b with
+        | some x, some y => UInt8.ofNat (16 * x + y) :: pctDecodeF fuel rest'
+        | _, _ => c :: pctDecodeF fuel rest
+      | _ => c :: pctDecodeF fuel rest
+    else c :: pctDecodeF fuel rest
+
+def pctDecode (b : Bytes) : Bytes := pctDecodeF b.length b
+
+def hasBlank (b : Bytes) : Bool := b.any fun c => c = 32 || c = 9
+
 def urlTag (announce : Bytes) (hash : Bytes) : String :=
   (match (splitUrl announce).2 with | some q => if q.isEmpty then "empty-query" else "with-query" | none => "no-query") ++
   (if hash.all isUnres then "-plain-hash" else if hash.any (fun b => b = 38 || b = 37 || b = 43 || b = 61 || b = 0 || b ≥ 128) then "-hostile-hash" else "-escaped-hash")
@@ -55,7 +73,7 @@ def c18 (args res : List String) : Verdict :=
           if k = sLeft then (k, Rdest.Bencode.natDec (total - owned)) else if k = sDownloaded then (k, Rdest.Bencode.natDec owned) else (k, v)
         let got := parsePairs (queryOf target)
         if host ≠ strBytes s!"127.0.0.1:{port}" then vProp "T3-host-header-is-not-the-announce-host" tag
-        else if (cutAt cQ target).1 ≠ path then vProp "T3-request-path-is-not-the-announce-path" tag
+        else if pctDecode (cutAt cQ target).1 ≠ pctDecode path then vProp "T3-request-path-is-not-the-announce-path" tag
         else if got ≠ expectedPairs announce hash ps ∧ got ≠ expectedPairs announce hash psTrue then
           vProp "T4-query-does-not-carry-announce-pairs-info-hash-peer-id-port-left" tag
         else vOk tag
@@ -75,10 +93,11 @@ def c18 (args res : List String) : Verdict :=
         let modelTarget := path ++ cQ :: queryOf url
         let ps := params peerId Rdest.Gen.PORT total
         if host ≠ strBytes s!"127.0.0.1:{port}" then vProp "T3-host-header-is-not-the-announce-host" tag
-        else if (cutAt cQ target).1 ≠ path then vProp "T3-request-path-is-not-the-announce-path" tag
+        else if pctDecode (cutAt cQ target).1 ≠ pctDecode path then vProp "T3-request-path-is-not-the-announce-path" tag
         else if parsePairs (queryOf target) ≠ expectedPairs announce hash ps then
           vProp "T4-query-does-not-carry-announce-pairs-info-hash-peer-id-port-left" tag
-        else if target ≠ modelTarget then vDiff "target" (toHex modelTarget) tag
+        -- (an announce URL with blanks is normalised by the `url` crate - outside the model: judged by the oracles only)
+        else if !hasBlank announce ∧ target ≠ modelTarget then vDiff "target" (toHex modelTarget) tag
         else vOk tag
       | _, _ => vBad (joinToks res)
     | _, _, _, _, _ => vBad (joinToks args)
